@@ -388,6 +388,179 @@ def path_cases(ctx):
     return out
 
 
+def path_histories(ctx, terms, infos):
+    import shutil
+    import tempfile
+    import sharepoint2text as s2t
+    from sharepoint2text.parsing.extractors.data_types import FileMetadataInterface
+    so = lambda x: coq_opt(x, cstr)
+    cwd0 = os.getcwd()
+    td = tempfile.mkdtemp(prefix="c04-hist-", dir="/var/tmp")
+    T = Path(td)
+
+    def call(p, step, scenario):
+        """One call of the real function in the current state + its oracle values recorded right now."""
+        pp = Path(p)
+        sp, spar = str(pp), str(pp.parent)
+        fs = {q: fs_record(q) for q in (sp, spar)}
+        name, ext, full, par = spec_path(p)
+        want = (name, ext, fs[sp][1] if fs[sp][0] else full, fs[spar][1] if fs[spar][0] else par)
+        gots = []
+        m = FileMetadataInterface()
+        try:
+            m.populate_from_path(p)
+            gots.append(("populate_from_path", (m.filename, m.file_extension, m.file_path, m.folder_path)))
+        except Exception as e:  # noqa
+            ctx.finding(f"path-raises:{type(e).__name__}", f"populate_from_path({p!r:.80}) raises {e!r:.160} [{scenario} step {step}]", {"path": p})
+        try:
+            md = next(iter(s2t.read_plain_text(io.BytesIO(b"x"), path=p))).get_metadata()
+            gots.append(("read_plain_text", (md.filename, md.file_extension, md.file_path, md.folder_path)))
+        except Exception as e:  # noqa
+            ctx.finding(f"reader-path-raises:read_plain_text:{type(e).__name__}", f"read_plain_text(path={p!r:.80}) raises {e!r:.160}", {"path": p})
+        ctx.case(("path-history", scenario, step, p, os.getcwd().replace(td, "<T>")), True, kind="path:history")
+        for who, got in gots:
+            if got != want:
+                which = ",".join(n_ for n_, g_, w_ in zip(("filename", "file_extension", "file_path", "folder_path"), got, want) if g_ != w_)
+                ctx.finding("path-metadata-history-dependent:" + which,
+                            f"{who}({p!r:.80}) in scenario '{scenario}', step {step} (cwd {os.getcwd().replace(td, '<T>')}): {which} = "
+                            f"{tuple(g_ for g_, w_ in zip(got, want) if g_ != w_)!r:.200}, the file system now says "
+                            f"{tuple(w_ for g_, w_ in zip(got, want) if g_ != w_)!r:.200} — the answer describes an earlier call",
+                            {"path": p, "scenario": scenario, "step": step, "got": got, "want": want,
+                             "how": "same process; see tools/props/c04.py path_histories for the sequence of chdir/mkdir/symlink steps"})
+        if gots:
+            got = gots[0][1]
+            fsl = coq_list([pair(cstr(q), pair(coq_opt(e, coq_bool), cstr(r))) for q, (e, r) in fs.items()])
+            terms.append(pair("(Some " + cstr(p) + ")", fsl, "(Some " + pair(so(got[0]), so(got[1]), so(got[2]), so(got[3])) + ")"))
+            infos.append((scenario, step, p))
+
+    try:
+        for d in ("A/docs", "B/docs", "C", "real1", "real2"):
+            (T / d).mkdir(parents=True)
+        (T / "A/docs/report.txt").write_text("a")
+        (T / "B/docs/report.txt").write_text("b")
+        rel = "docs/report.txt"
+        # 1. the same relative path from different working directories (both orders, and back again)
+        for k, d in enumerate(("A", "B", "C", "A", "C", "B")):
+            os.chdir(T / d)
+            call(rel, k, "relative path, cwd A/B/C")
+            call("report.txt", k, "bare name, cwd A/B/C")
+            call("./docs/../docs/report.txt", k, "dotted relative path, cwd A/B/C")
+        os.chdir(T)
+        # 2. a parent that does not exist, then exists, then holds the file, then is gone again
+        newp = str(T / "late" / "sub" / "x.txt")
+        call(newp, 0, "parent appears")
+        (T / "late" / "sub").mkdir(parents=True)
+        call(newp, 1, "parent appears")
+        (T / "late" / "sub" / "x.txt").write_text("x")
+        call(newp, 2, "parent appears")
+        shutil.rmtree(T / "late")
+        call(newp, 3, "parent appears")
+        # 3. a symlinked parent that is re-targeted between calls
+        link = T / "link"
+        for k, target in enumerate(("real1", "real2", None, "real1")):
+            if link.is_symlink():
+                link.unlink()
+            if target:
+                link.symlink_to(T / target, target_is_directory=True)
+            call(str(link / "f.txt"), k, "symlinked parent re-targeted")
+            call("link/f.txt", k, "symlinked parent re-targeted (relative)")
+        # 4. a directory replaced by a file of the same name
+        (T / "shape").mkdir()
+        call(str(T / "shape" / "y.txt"), 0, "directory becomes file")
+        (T / "shape").rmdir()
+        (T / "shape").write_text("now a file")
+        call(str(T / "shape" / "y.txt"), 1, "directory becomes file")
+    finally:
+        os.chdir(cwd0)
+        shutil.rmtree(td, ignore_errors=True)
+
+
+# ------------------------------------------------------------------------------------------------ memoisation obligation (ast)
+_FS_NAMES = {"exists", "resolve", "stat", "lstat", "is_file", "is_dir", "is_symlink", "absolute", "cwd", "getcwd", "expanduser", "home",
+             "samefile", "iterdir", "glob", "rglob", "realpath", "abspath", "open", "readlink", "listdir", "scandir", "getenv", "environ",
+             "_path_exists", "Path", "PurePath", "os", "mimetypes", "guess_type", "time", "now", "today"}
+_SAFE_CALLS = {"int", "float", "round", "str", "len", "max", "min", "sorted", "tuple", "list", "dict", "set", "isinstance", "bool", "abs",
+               "lower", "upper", "strip", "lstrip", "rstrip", "group", "groups", "match", "search", "fullmatch", "get", "startswith",
+               "endswith", "split", "join", "replace", "isdigit", "isalpha", "isfinite", "compile", "format", "encode", "decode"}
+
+
+def memo_obligation(ctx):
+    """No functools cache / module-level memo on data_types.py code whose result depends on the file system, the
+    working directory or the environment (fail closed: a cached function must be provably made of safe calls)."""
+    from sharepoint2text.parsing.extractors import data_types as dt
+    src = Path(inspect.getsourcefile(dt)).read_text(encoding="utf-8")
+    tree = ast.parse(src)
+    funcs = {}
+    for node in ast.walk(tree):
+        if isinstance(node, (ast.FunctionDef, ast.AsyncFunctionDef)):
+            funcs.setdefault(node.name, node)
+    memo_names = set()
+    for node in tree.body:
+        tgt, val = None, None
+        if isinstance(node, ast.Assign) and len(node.targets) == 1 and isinstance(node.targets[0], ast.Name):
+            tgt, val = node.targets[0].id, node.value
+        elif isinstance(node, ast.AnnAssign) and isinstance(node.target, ast.Name) and node.value is not None:
+            tgt, val = node.target.id, node.value
+        if tgt and ((isinstance(val, (ast.Dict, ast.List, ast.Set)) and not (getattr(val, "keys", None) or getattr(val, "elts", None)))
+                    or (isinstance(val, ast.Call) and getattr(val.func, "id", getattr(val.func, "attr", "")) in
+                        ("dict", "list", "set", "defaultdict", "OrderedDict", "WeakValueDictionary", "WeakKeyDictionary"))):
+            memo_names.add(tgt)
+
+    def deco_name(d):
+        d = d.func if isinstance(d, ast.Call) else d
+        return d.attr if isinstance(d, ast.Attribute) else getattr(d, "id", "")
+
+    def called_names(fn):
+        out = set()
+        for n in ast.walk(fn):
+            if isinstance(n, ast.Call):
+                f = n.func
+                out.add(f.attr if isinstance(f, ast.Attribute) else getattr(f, "id", "?"))
+            elif isinstance(n, ast.Attribute):
+                out.add(n.attr)
+            elif isinstance(n, ast.Name):
+                out.add(n.id)
+        return out
+
+    cached = []
+    for name, fn in funcs.items():
+        decos = [deco_name(d) for d in fn.decorator_list]
+        how = [d for d in decos if d in ("lru_cache", "cache", "cached_property", "memoize", "memoized")]
+        for n in ast.walk(fn):     # writes into a module-level container = hand-made memo
+            if isinstance(n, ast.Subscript) and isinstance(n.ctx, ast.Store) and getattr(n.value, "id", None) in memo_names:
+                how.append("memo:" + n.value.id)
+            if isinstance(n, ast.Call) and isinstance(n.func, ast.Attribute) and getattr(n.func.value, "id", None) in memo_names \
+                    and n.func.attr in ("setdefault", "update", "append", "add"):
+                how.append("memo:" + n.func.value.id)
+        if how:
+            cached.append((name, sorted(set(how)), fn))
+    bad, listed = [], []
+    for name, how, fn in cached:
+        seen, todo, reasons = set(), [fn], []
+        while todo:
+            f = todo.pop()
+            if f.name in seen:
+                continue
+            seen.add(f.name)
+            for c in called_names(f):
+                if c in _FS_NAMES:
+                    reasons.append(f"{f.name} uses {c}")
+                elif c in funcs and c not in seen:
+                    todo.append(funcs[c])
+            for n in ast.walk(f):
+                if isinstance(n, ast.Call):
+                    fnm = n.func.attr if isinstance(n.func, ast.Attribute) else getattr(n.func, "id", "?")
+                    if fnm not in _SAFE_CALLS and fnm not in funcs and fnm not in _FS_NAMES:
+                        reasons.append(f"{f.name} calls {fnm} (not known to be pure)")
+        listed.append(f"{name} [{', '.join(how)}]")
+        if reasons:
+            bad.append(f"{name} [{', '.join(how)}]: " + "; ".join(sorted(set(reasons))[:4]))
+    ctx.extra["data_types_cached_functions"] = listed
+    ctx.obligation("ast:data_types.py has no file-system/cwd-dependent memoisation (cached functions: %s)" % (", ".join(listed) or "none"),
+                   not bad, "; ".join(bad))
+    return bad
+
+
 def run_paths(ctx, tb):
     from sharepoint2text.parsing.extractors.data_types import FileMetadataInterface
     paths = path_cases(ctx)
@@ -434,6 +607,10 @@ def run_paths(ctx, tb):
         want = "None" if got is None else "(Some " + pair(so(got[0]), so(got[1]), so(got[2]), so(got[3])) + ")"
         terms.append(pair("(Some " + cstr(p) + ")", fsl, want))
         infos.append(p)
+    # the SAME path strings under changing file-system states and working directories, in this one process:
+    # every call is compared with the model on that call's oracle values — the result is a function of
+    # (path, file system now), never of earlier calls
+    path_histories(ctx, terms, infos)
     corr(ctx, "populate_from_path", "(path_case path_guard)", terms, infos,
          "option str * list (str * (option bool * str)) * option (option str * option str * option str * option str)")
     corr(ctx, "pathlib", "purepath_case", pure, paths, "str * str * str * str * str")
@@ -1586,6 +1763,7 @@ def run(ctx):
     ]
     ctx.assumptions += ["POSIX pathlib of CPython 3.12; streams held by images are open; IEEE-754 binary64 floats"]
     tb = gen_tables(ctx)
+    memo_obligation(ctx)
     import time as _t
     _t0 = _t.time()
     ctx.prove("C04/Props.v", ["C04/Proofs.vo", "C04/ProofsPath.vo", "C04/ProofsRtf.vo", "C04/ProofsMeta.vo", "C04/ProofsRtfText.vo", "C04/ModelSummary.vo"], expected=PROPS)
